@@ -45,4 +45,14 @@ THEOREM MirrorLaw ==
          NEW half \in {-1,0,1}, NEW inexact \in BOOLEAN
   PROVE  Signed(Mirror(m), C, ~neg, odd, last05, half, inexact) = -Signed(m, C, neg, odd, last05, half, inexact)
   BY DEF Modes, Mirror, Inc, B2I, Mag, Signed
+\* monotone in the operand: a larger truncated coefficient, or the same one with a larger discarded part,
+\* never rounds to a smaller magnitude (C20: Round is monotone; the sign case follows by MirrorLaw)
+THEOREM Monotone ==
+  ASSUME NEW m \in Modes \cup {""}, NEW C1 \in Nat, NEW C2 \in Nat, NEW neg \in BOOLEAN,
+         NEW odd1 \in BOOLEAN, NEW odd2 \in BOOLEAN, NEW l1 \in BOOLEAN, NEW l2 \in BOOLEAN,
+         NEW half1 \in {-1,0,1}, NEW half2 \in {-1,0,1}, NEW inx1 \in BOOLEAN, NEW inx2 \in BOOLEAN,
+         \/ C1 < C2
+         \/ (C1 = C2 /\ odd1 = odd2 /\ l1 = l2 /\ half1 <= half2 /\ (inx1 => inx2))
+  PROVE  Mag(m, C1, neg, odd1, l1, half1, inx1) <= Mag(m, C2, neg, odd2, l2, half2, inx2)
+  BY DEF Modes, Inc, B2I, Mag
 ====
